@@ -116,7 +116,7 @@ func permutations(n int) [][]int {
 // and after a log with fields), L odd nodes field-less, perm: by position.
 //
 // A name with the suffix ":2r" stops after the second round (used for the
-// deepest space of the quick tier).
+// deepest space of a tier).
 func schedByName(steps []step, fullName string) (sched, bool) {
 	name, rounds := fullName, 3
 	if strings.HasSuffix(name, ":2r") {
@@ -286,9 +286,13 @@ func replayMode(run *ev.Run, path string) {
 	}
 	r := &runner{}
 	c := caseDesc{fam: fam, rootSugared: doc.Case.RootSugared, steps: steps, variant: sc.name, events: sc.events}
-	if f := r.exec(c); f != nil {
+	f := r.exec(c)
+	for _, sf := range r.soft {
+		run.Report(sf.key, sf.what, c.replay())
+	}
+	if f != nil {
 		run.Report(f.key, f.what, c.replay())
-	} else {
+	} else if len(r.soft) == 0 {
 		fmt.Println("replay: the recorded case now satisfies the reference model")
 	}
 	run.Finish(map[string]any{
@@ -322,7 +326,7 @@ func main() {
 			spaces = append(spaces, space{d, fullSyms, "full", sug, ""})
 		}
 	}
-	// names with the separator at the start / end / alone / inside: depth 1..3 (thorough: ..4), both roots
+	// names with the separator at the start / end / alone / inside: depth 1..3 from both roots (thorough: also depth 4 from the plain root)
 	nameSyms := append(pick("Named(a)", "Named()", "With1", "Toggle"), sepNameSyms...)
 	nameDepth := 3
 	if run.Thorough() {
@@ -330,6 +334,9 @@ func main() {
 	}
 	for _, sug := range []bool{false, true} {
 		for d := 1; d <= nameDepth; d++ {
+			if d == 4 && sug {
+				continue // depth 4 from the plain root only
+			}
 			spaces = append(spaces, space{d, nameSyms, "names: " + symList(nameSyms), sug, "sep"})
 		}
 	}
@@ -352,15 +359,12 @@ func main() {
 		spaces = append(spaces, space{5, reduced6, "reduced-6: " + symList(reduced6), false, ""})
 	}
 
-	// the two dynamic-level families and tee(json,json) run on the depth<=4 spaces in the thorough tier, on the depth<=3 spaces in the quick tier
+	// the two dynamic-level families and tee(json,json) run on the depth<=3 spaces (quick tier: tee(json,json) narrower, see below)
 	dynMaxDepth := 3
-	if run.Thorough() {
-		dynMaxDepth = 4
-	}
-	// every node logs three times; in the quick tier the depth-4 space stops after the second round
+	// every node logs three times; the deepest space of a tier (quick: depth 4, thorough: depth 5) stops after the second round
 	threeRoundDepth := 3
 	if run.Thorough() {
-		threeRoundDepth = 99
+		threeRoundDepth = 4
 	}
 	type item struct {
 		sp     int
@@ -436,10 +440,17 @@ func main() {
 				if fam >= famJSONDyn && sp.depth > dynMaxDepth {
 					continue
 				}
+				if fam == famTeeJJ && !run.Thorough() && sp.need != "slice" && sp.depth > 2 {
+					continue // quick tier: tee(json,json) on the slices spaces and on depth<=2 of the others
+				}
 				for k, sn := range names {
 					sc := scheds[k]
 					c := caseDesc{fam: fam, rootSugared: sp.rootSugared, steps: steps, variant: sc.name, events: sc.events}
-					if f := r.exec(c); f != nil {
+					f := r.exec(c)
+					for _, sf := range r.soft {
+						run.Report(sf.key, sf.what, c.replay())
+					}
+					if f != nil {
 						run.Report(f.key, f.what, c.replay())
 					}
 					if sample == nil && idx == it.lo && fam == famTee && sn == names[len(names)-1] {
@@ -487,7 +498,7 @@ func main() {
 		"every entry is logged at Info (enabled in every family); the sampler's budget (first=2^30 per tick) is never exhausted",
 		"evaluation time/count of marshalers is demanded only where every serialising core is a byte encoder (json, console, sampler, hooked, increase-level, lazy): With = once, at derivation; WithLazy = once, at the first log through the logger or a descendant or the first With/WithOptions(Fields) chained on it. The observer keeps the Field unevaluated: there only field identity (Field.Equals + same marshaler pointer) is compared; in tee(json,observer) the JSON branch's value is compared but not the call count",
 		"Named, Sugar, Desugar and WithLazy on a lazy logger are not a 'use' (documented: evaluated only if chained with With or written to)",
-		"use orders: every permutation of first uses for <=3 nodes, else forward (F) and reverse (R) after all derivations; E = each node used before anything is derived from it; L = parent first used after its first child and before later children; every node then logs a second and a third time (quick tier, depth-4 space: a second time only - there F gives with-fields->field-less, R field-less->with-fields, E/L both by node parity); per node the calls alternate between carrying call-site fields and being field-less (F starts with fields, R field-less, E/L/perm mixed by node index/position), so both successions field-less->with-fields and with-fields->field-less occur for every node, and in E children are derived right after a parent's field-less log (even parents) and after a log with fields (odd parents)",
+		"use orders: every permutation of first uses for <=3 nodes, else forward (F) and reverse (R) after all derivations; E = each node used before anything is derived from it; L = parent first used after its first child and before later children; every node then logs a second and a third time (deepest space of the tier - quick: depth 4, thorough: depth 5 -: a second time only - there F gives with-fields->field-less, R field-less->with-fields, E/L both by node parity); per node the calls alternate between carrying call-site fields and being field-less (F starts with fields, R field-less, E/L/perm mixed by node index/position), so both successions field-less->with-fields and with-fields->field-less occur for every node, and in E children are derived right after a parent's field-less log (even parents) and after a log with fields (odd parents)",
 	}
 	run.Finish(map[string]any{
 		"states":                             len(states),
@@ -495,7 +506,7 @@ func main() {
 		"traces_validated_against_impl":      cases,
 		"evaluations":                        cases,
 		"distinct_nontrivial":                nontrivial,
-		"rule":                               "a program = root kind + sequence of (parent index among nodes so far, symbol); symbols = {With,WithLazy,WithOptions(Fields)} x {1 field, 3 fields, Namespace+field, mutable marshaler+field, Skip+2 fields, field+nil-error+field, the previous step's slice object again}, Named x {'','a','b','.a','a.','.','a.b'}, Sugar/Desugar; every program of each listed space is run under the core families (8 static ones on every space; the 2 dynamic-level ones and tee(json,json) up to dynamic_level_families_up_to_depth) x the use orders; states = distinct reference node states (root kind + symbols along the derivation path, i.e. field path and name); distinct_nontrivial = distinct programs with >=2 steps of which >=1 adds context; evaluations = (program, family, use order) cases executed",
+		"rule":                               "a program = root kind + sequence of (parent index among nodes so far, symbol); symbols = {With,WithLazy,WithOptions(Fields)} x {1 field, 3 fields, Namespace+field, mutable marshaler+field, Skip+2 fields, field+nil-error+field, the previous step's slice object again}, Named x {'','a','b','.a','a.','.','a.b'}, Sugar/Desugar; every program of each listed space is run under the core families (8 static ones on every space; the 2 dynamic-level ones up to dynamic_level_families_up_to_depth; tee(json,json) likewise in the thorough tier, in the quick tier on the 'slices' spaces and on depth<=2 of the other spaces) x the use orders; states = distinct reference node states (root kind + symbols along the derivation path, i.e. field path and name); distinct_nontrivial = distinct programs with >=2 steps of which >=1 adds context; evaluations = (program, family, use order) cases executed",
 		"samples":                            samples,
 		"exhaustive":                         true,
 		"programs":                           programs,
